@@ -1,5 +1,5 @@
-// Package props: per-property case generators and implementation invokers.
-package props
+// Package gen: shared seeded generators, the property registry and helpers for invokers.
+package gen
 
 import (
 	"fmt"
@@ -97,7 +97,7 @@ func (g *Gen) ValidEIDAt(h, v int64) string {
 	return EID(h, g.HIndex(h), g.HIndex(h), v, g.VIndex(v))
 }
 
-var malformedFixed = []string{"", "/", "////", "1/2", "1/2/3", "a/0/0/0/0", "1/0/0/1/", "1//0/1/0", "/0/0/1/0",
+var MalformedFixed = []string{"", "/", "////", "1/2", "1/2/3", "a/0/0/0/0", "1/0/0/1/", "1//0/1/0", "/0/0/1/0",
 	"1/0/0/1/99999999999999999999", "1/0/0/1/-9223372036854775809", "1/0/0/1/0/7", "1/0 /0/1/0", " 1/0/0/1/0", "1/0/0/1/0 ",
 	"１/0/0/1/0", "1/0/0/1/-", "1/0/0/1/+", "1/0/0/1/+-3", "0x1/0/0/1/0", "1/0/0/1/1e3", "1/0/0/1/1.0", "1/0/0/1/1_0",
 	"1/b/0/0", "1/0/b/0", "b/0/0/0", "1/0/0/b", "1/0/0", "1/0/0/0/0/0", "1\t/0/0/1/0", "1/0/0/1/0\n", "1/0/0/1/٣", "\x00/0/0/0/0",
@@ -106,7 +106,7 @@ var malformedFixed = []string{"", "/", "////", "1/2", "1/2/3", "a/0/0/0/0", "1/0
 // Malformed: a string that is not a well-formed extended ID (wrong arity, empty field, spaces, non-digits, overflow...).
 func (g *Gen) Malformed() string {
 	if g.Chance(0.5) {
-		return malformedFixed[g.Intn(len(malformedFixed))]
+		return MalformedFixed[g.Intn(len(MalformedFixed))]
 	}
 	id, _, _ := g.ValidEID()
 	fs := strings.Split(id, "/")
@@ -129,19 +129,19 @@ func (g *Gen) Malformed() string {
 		b := []byte(strings.Join(fs, "/"))
 		b[g.Intn(len(b))] = byte(g.Intn(256))
 		s := string(b)
-		if wellFormed(s, 5) {
+		if WellFormed(s, 5) {
 			return "q" + s
 		}
 		return s
 	}
 	s := strings.Join(fs, "/")
-	if wellFormed(s, 5) {
+	if WellFormed(s, 5) {
 		return s + "/x"
 	}
 	return s
 }
 
-func wellFormed(s string, n int) bool {
+func WellFormed(s string, n int) bool {
 	fs := strings.Split(s, "/")
 	if len(fs) != n {
 		return false
@@ -163,4 +163,4 @@ func EToS(e string) string {
 
 func FBits(u uint64) float64 { return math.Float64frombits(u) }
 
-func tag(format string, a ...interface{}) string { return fmt.Sprintf(format, a...) }
+func Tag(format string, a ...interface{}) string { return fmt.Sprintf(format, a...) }
